@@ -32,6 +32,48 @@ def cmdMerge : P String := do
     let sw := match d.sw with | none => "none" | some w => showInts w
     pure s!"ok {showInts d.idx} | {showInts d.y} | {sw}"
 
-def handlers : List (String × P String) := [("g_iw_merge", cmdMerge)]
+/-- an attribute: `0` = not assigned, `1 <value>` -/
+def attrOf {γ : Type} (p : P γ) : P (Option γ) := do
+  if (← bool) then
+    let v ← p
+    pure (some v)
+  else pure none
+
+def showAttr {γ : Type} (f : γ → String) : Option γ → String
+  | none => "absent"
+  | some v => f v
+
+def showOW : Option (List Int) → String
+  | none => "None"
+  | some w => "[" ++ showInts w ++ "]"
+
+def showObj (o : Ska.PyIW.WObj Unit Int Int) : String :=
+  let l := fun (x : List Int) => "[" ++ showInts x ++ "]"
+  s!"clf {if o.clf_.isSome then 1 else 0} | {showAttr l o.idx_} | {showAttr l o.y_} | {showAttr showOW o.sample_weight_} | " ++
+  s!"base {if o.base_clf_.isSome then 1 else 0} | {showAttr l o.base_idx_} | {showAttr l o.base_y_} | {showAttr showOW o.base_sample_weight_}"
+
+/-- `g_iw_store <use_partial_fit> <set_base_clf> <idx_> <y_> <sample_weight_> <base_clf_?> <base_idx_> <base_y_> <base_sample_weight_>
+<idx> <y> <sw?>`: the translated tail of `fit` on an object whose `clf_` has just been fitted -/
+def cmdStore : P String := do
+  let native ← bool
+  let sb ← bool
+  let i ← attrOf (listOf int)
+  let y ← attrOf (listOf int)
+  let w ← attrOf optList
+  let bc ← bool
+  let bi ← attrOf (listOf int)
+  let by' ← attrOf (listOf int)
+  let bw ← attrOf optList
+  let idx ← listOf int
+  let yy ← listOf int
+  let ww ← optList
+  let o : Ska.PyIW.WObj Unit Int Int :=
+    { clf_ := some (), idx_ := i, y_ := y, sample_weight_ := w, base_clf_ := if bc then some () else none,
+      base_idx_ := bi, base_y_ := by', base_sample_weight_ := bw }
+  match fit.store native sb o idx yy ww with
+  | .error e => pure s!"err {showErr e}"
+  | .ok o' => pure (showObj o')
+
+def handlers : List (String × P String) := [("g_iw_merge", cmdMerge), ("g_iw_store", cmdStore)]
 
 end Ska.Drv.WrapperGen
